@@ -361,7 +361,9 @@ class Check(core.PropertyCheck):
         g = models[0].graph
         consts = models[0].constants
         behs = g.edge_cover(ctx.rng, max_len=40, tail=5)
-        behs += g.random_walks(ctx.rng, 1500 if ctx.quick else 12000, 30)
+        if ctx.quick and len(behs) > 4000:
+            behs = ctx.rng.sample(behs, 4000)  # quick tier replays a seeded sample of the cover, thorough all of it
+        behs += g.random_walks(ctx.rng, 600 if ctx.quick else 12000, 30)
         for b in behs:
             yield core.Scenario({"ops": self._ops(b, consts)}, predicted=core.predicted_events(b), source="model")
         if not ctx.quick:
